@@ -28,7 +28,8 @@ def setup(ctx, label, tts, order=None, extra_mgr=False):
 
 
 OPS = ['and', 'xor', 'ite', 'quantify', 'apply_exists', 'apply_forall', 'let_bool', 'let_ref',
-       'let_name', 'cube', 'var', 'copy', 'image', 'preimage', 'find_or_add', 'compose1']
+       'let_name', 'cube', 'var', 'copy', 'image', 'preimage', 'find_or_add', 'compose1',
+       'quantify_levels', 'cofactor_levels']
 
 
 def run_one(ctx, opname, tts, k, natural=None):
@@ -65,6 +66,13 @@ def run_one(ctx, opname, tts, k, natural=None):
     elif opname == 'quantify':
         r = M.op('quantify', u0, 'n', [0, 2], False)
         expect = T.exists(t0, n, [0, 2])
+    elif opname == 'quantify_levels':
+        # keys given as LEVELS (dd.bdd accepts both): the variables at those levels now
+        r = M.op('quantify', u0, 'l', [0, 2], False)
+        expect = T.exists(t0, n, [0, 2])
+    elif opname == 'cofactor_levels':
+        r = M.op('cofactor', u0, 'l', {1: True, 3: False})
+        expect = T.cofactor(t0, n, {1: True, 3: False})
     elif opname in ('apply_exists', 'apply_forall'):
         fa = opname == 'apply_forall'
         sup = sorted(T.support(t1, n))
@@ -131,6 +139,8 @@ def run_one(ctx, opname, tts, k, natural=None):
     ctx.case((opname, tuple(tts[:3]), k, natural), True)
     ctx.count('op:' + opname)
     key = 'C09:undecorated:' + opname if opname in ('image', 'preimage', 'copy', 'find_or_add') else 'C09:' + opname
+    if opname.endswith('_levels'):
+        key = 'C09:by-level:' + opname.split('_')[0]
     if res == 'err:needs_reordering':
         ctx.violation(key, f'{opname}: the internal reordering signal reached the caller '
                            f'(request {k if natural is None else "natural"})', M.case())
